@@ -103,7 +103,7 @@ func VerifC10Terminate() {
 	vf.Quiesce()
 
 	// the terminating event
-	event := vf.Choice("event", 6)
+	event := vf.Choice("event", 7)
 	switch event {
 	case 0:
 		client.endpointCloses()
@@ -124,6 +124,12 @@ func VerifC10Terminate() {
 		}
 	case 5:
 		close(closing)
+	case 6: // the only write towards the client that fails is the window credit for DATA it sent
+		client.failWrites = true
+		client.send(frameBytes(func(fr *http2.Framer) {
+			fr.WriteHeaders(http2.HeadersFrameParam{StreamID: 5, BlockFragment: headerBlock(), EndHeaders: true})
+			fr.WriteData(5, false, []byte("x"))
+		}))
 	}
 	vf.Quiesce()
 	if gate != nil {
